@@ -644,6 +644,22 @@ pub fn main(args: &Args) -> ! {
     }
 
     if args.tier.thorough() {
+        // separate free-running pass under ThreadSanitizer (unsynchronised accesses are invisible to a cooperative scheduler)
+        match std::process::Command::new("/verif/tools/tsan.sh").arg("6").arg("4000").output() {
+            Ok(o) => {
+                let out = String::from_utf8_lossy(&o.stdout).to_string();
+                if let Some(l) = out.lines().find(|l| l.starts_with("TSAN-RACES ")) {
+                    let n: u64 = l["TSAN-RACES ".len()..].trim().parse().unwrap_or(0);
+                    run.set("tsan_pass", format!("built with -Zsanitizer=thread, 6 threads x 4000 operations free-running: {} data race reports", n));
+                    if n > 0 {
+                        run.violation("coop/tsan-data-race", format!("ThreadSanitizer reports {} data race(s) in the free-running stress: {}", n, out.lines().skip(1).collect::<Vec<_>>().join(" | ")), json!({"engine": "tsan"}));
+                    }
+                } else {
+                    run.set("tsan_pass", format!("not available: {}", out.trim()));
+                }
+            }
+            Err(e) => run.set("tsan_pass", format!("not available: {}", e)),
+        }
         stress(&mut run, 8, 20_000, args.seed);
         run.set("stress", "8 threads x 20000 operations free-running (sampling, labelled; sound oracle: own live entry is handed out after an answered announce)");
     }
